@@ -35,6 +35,11 @@ func goEnv(scratch string) []string {
 	return env
 }
 
+// excludedHarness: harness files that do not compile against the current tree (an internal function
+// they call changed its signature or disappeared): they are left out, with the first error, so that
+// the other harnesses of the package still run; their harnesses are reported inconclusive.
+var excludedHarness = map[string]string{}
+
 // harnessOverlay builds the overlay for the given package directories (relative to the module root).
 // native selects the vf API with real bodies' test driver included.
 func harnessOverlay(pkgRels []string, native bool) (map[string][]byte, error) {
@@ -58,6 +63,9 @@ func harnessOverlay(pkgRels []string, native bool) (map[string][]byte, error) {
 			src, err := os.ReadFile(filepath.Join(dir, e.Name()))
 			if err != nil {
 				return nil, err
+			}
+			if _, out := excludedHarness[filepath.Join(repoDir, rel, "zz_verif_"+e.Name())]; out {
+				continue
 			}
 			ov[filepath.Join(repoDir, rel, "zz_verif_"+e.Name())] = src
 			for _, line := range strings.Split(string(src), "\n") {
@@ -128,37 +136,56 @@ func loadProgram(pkgRels []string) (*loadResult, error) {
 	if err != nil {
 		return nil, err
 	}
-	ov, err := harnessOverlay(pkgRels, false)
-	if err != nil {
-		return nil, err
-	}
 	var patterns []string
 	for _, r := range pkgRels {
 		patterns = append(patterns, "./"+r)
 	}
-	cfg := &packages.Config{
-		Mode:       packages.LoadAllSyntax,
-		Dir:        repoDir,
-		Overlay:    ov,
-		Env:        goEnv(scratch),
-		BuildFlags: []string{"-modfile=" + filepath.Join(scratch, "go.mod")},
-	}
-	pkgs, err := packages.Load(cfg, patterns...)
-	if err != nil {
-		return nil, err
-	}
-	nerr := 0
-	var msgs []string
-	packages.Visit(pkgs, nil, func(p *packages.Package) {
-		for _, e := range p.Errors {
-			nerr++
-			if len(msgs) < 10 {
-				msgs = append(msgs, e.Error())
-			}
+	var ov map[string][]byte
+	var pkgs []*packages.Package
+	for attempt := 0; ; attempt++ {
+		ov, err = harnessOverlay(pkgRels, false)
+		if err != nil {
+			return nil, err
 		}
-	})
-	if nerr > 0 {
-		return nil, fmt.Errorf("load errors (%d): %s", nerr, strings.Join(msgs, "; "))
+		cfg := &packages.Config{
+			Mode:       packages.LoadAllSyntax,
+			Dir:        repoDir,
+			Overlay:    ov,
+			Env:        goEnv(scratch),
+			BuildFlags: []string{"-modfile=" + filepath.Join(scratch, "go.mod")},
+		}
+		pkgs, err = packages.Load(cfg, patterns...)
+		if err != nil {
+			return nil, err
+		}
+		nerr := 0
+		var msgs []string
+		excludedNow := 0
+		packages.Visit(pkgs, nil, func(p *packages.Package) {
+			for _, e := range p.Errors {
+				nerr++
+				if len(msgs) < 10 {
+					msgs = append(msgs, e.Error())
+				}
+				// an error located in a harness file: leave that file out and retry
+				file := e.Pos
+				if i := strings.Index(file, ".go:"); i >= 0 {
+					file = file[:i+3]
+				}
+				if strings.HasPrefix(filepath.Base(file), "zz_verif_h_") {
+					if _, done := excludedHarness[file]; !done {
+						excludedHarness[file] = e.Error()
+						excludedNow++
+					}
+				}
+			}
+		})
+		if nerr == 0 {
+			break
+		}
+		if excludedNow == 0 || attempt > 8 {
+			return nil, fmt.Errorf("load errors (%d): %s", nerr, strings.Join(msgs, "; "))
+		}
 	}
 	prog, spkgs := ssautil.AllPackages(pkgs, ssa.InstantiateGenerics)
 	prog.Build()
